@@ -30,7 +30,7 @@ EXPLANATION = (
     'written = compared on read (lighthouse and parameter files); R7 deck info section: 0x20 = 2 + calcsize(<LLL18s), masks are distinct '
     'single bits, info offsets; loco anchors: <fff? = page length, id list = 1 + max; the deck name extraction is total for an unterminated 18-byte field; R8 LED timing image: record layout, flags byte, terminator, and no all-zero record before the terminator (shared with C13.R5); R9 trajectory images: units, unmasked int16 packing, type codes, layouts (shared with C13.R4).')
 ASSUMPTIONS = ['crc32/checksum functions are correct; only which bytes they cover and which byte they are compared with is decided']
-FLOORS = {'R1': 9, 'R2': 8, 'R3': 7, 'R4': 3, 'R5': 12, 'R6': 12, 'R7': 11, 'R8': 4, 'R9': 8}
+FLOORS = {'R1': 9, 'R2': 8, 'R3': 7, 'R4': 3, 'R5': 12, 'R6': 12, 'R7': 14, 'R8': 4, 'R9': 8}
 
 
 def packs(func):
@@ -444,6 +444,29 @@ def check(ctx):
         cnt = [s for s in walk_own(f.node) if isinstance(s, ast.Assign) and norm_nc(s.value) == '%s[0]' % f.params[1]]
         ok = len(lp) == 1 and len(cnt) == 1 and norm(lp[0].iter) == 'range(%s)' % norm(cnt[0].targets[0]) and [norm_nc(s) for s in lp[0].body] == ['%s.append(%s[1 + %s])' % (lst, f.params[1], norm(lp[0].target))]
         ctx.inst('R7', f, 'id-list-parse', ok, 'ids = data[1 .. count] with count = data[0]')
+        # the parser appends: the list has to be emptied by whoever asks for the data, or a second poll reports the old ids followed
+        # by the new ones (and calls the result valid)
+        nd = L2.method('new_data')
+        gnd = cfg_of(nd)
+        hc = gnd.find(lambda q, fn=fn: method_call(q, fn))
+        adr = None
+        if len(hc) == 1:
+            for k_ in gnd.fact_keys_at(hc[0][0]):
+                sides = k_[0].split(' == ')
+                if k_[1] is True and len(sides) == 2 and nd.params[2] in sides:
+                    adr = sides[1 - sides.index(nd.params[2])]
+        ctx.need(adr is not None, 'LocoMemory2.new_data: address test in front of %s not found' % fn)
+        asked = 0
+        for q_ in L2.methods.values():
+            gq = cfg_of(q_)
+            for rn, rcall in gq.find(lambda c_: method_call(c_, 'read') and len(c_.args) >= 2):
+                if norm(rcall.args[1]).split('.')[-1] != adr.split('.')[-1]:
+                    continue
+                asked += 1
+                fresh = [n_ for n_ in gq.nodes if n_.kind == 'stmt' and isinstance(n_.ast, ast.Assign) and norm(n_.ast.targets[0]) == lst and norm(n_.ast.value) in ('[]', 'list()')]
+                ctx.inst('R7', q_, 'id-list-emptied-before-read:' + lst, any(gq.dominates(n_, rn) for n_ in fresh),
+                         '%s is filled by append in %s: %s must empty it before it asks for the list' % (lst, fn, q_.name))
+        ctx.need(asked >= 1, 'LocoMemory2: no read of %s found' % adr)
 
 
 def tlv_by_offset(par, loop):
